@@ -6,7 +6,7 @@ from ..engines import seqgen as G
 ID = "C01"
 ENGINE = "seqsim"
 LEVEL = "exploration"
-RUNS = {"quick": 24000, "thorough": 400000}
+RUNS = {"quick": 100000, "thorough": 400000}
 CHUNK = 250
 RULE = ("seeded random traces (1-25 steps) of public mutators/reads issued on the root and on nested children (fresh "
         "navigation and retained handles, depth<=4) of 1-2 unbuffered objects on one resource (an outside writer in a "
@@ -71,7 +71,7 @@ def gen_step(w, rg):
         roots = [h for h in hs if not h.path]
         h = G.pick(rg, roots if rg.random() < 0.5 else hs)
         st = G.gen_op_step(rg, w, h, depth=cfg["depth"], mut_weight=1.0, slices=False, keep_p=0.0)
-        st["fault"] = {"at": rg.randrange(0, 7), "exc": ["OSError", G.pick(rg, ["EIO", "ENOSPC", "EACCES", "EMFILE"])]}
+        st["fault"] = {"at": rg.randrange(0, 10), "exc": ["OSError", G.pick(rg, ["EIO", "ENOSPC", "EACCES", "EMFILE"])]}
         w._last_faulted = dict(st)
         return st
     nested = [h for h in hs if h.path]
